@@ -328,10 +328,46 @@ def _record(args):
     return lines, notes
 
 
+def tail_docs():
+    """the iframe boundary at the END of a subtree, systematically: form > (div)^w > iframe > (div | form)^c > leaf, followed - after the
+    wrappers close - by controls of the outer form.  Whatever walks the outer form's descendants must step over the whole embedded
+    document, however deep its last branch is, and continue with what follows the wrappers."""
+    A = lambda k, v: {'k': common.cps(k), 'ns': [], 'local': common.cps(k), 'v': common.cps(v), 'list': False}  # noqa: E731
+    leaves = [('input', [A('type', 'submit')]), ('input', [A('type', 'radio'), A('name', 'g')]), ('input', [A('type', 'radio'), A('name', 'g'), A('checked', '')]),
+              ('button', [A('type', 'submit')])]
+    docs = []
+    for w in (0, 1, 2):
+        for chain in (['div'], ['form'], ['div', 'div'], ['form', 'div'], ['div', 'div', 'div']):
+            for li, (ln, la) in enumerate(leaves):
+                d = {'parent': [], 'kind': [], 'name': [], 'ns': [], 'pfx': [], 'attrs': [], 'text': [], 'top': 'doc', 'xml': False}
+
+                def add(p, name, attrs=()):
+                    d['parent'].append(p); d['kind'].append('e'); d['name'].append(common.cps(name)); d['ns'].append([]); d['pfx'].append([])
+                    d['attrs'].append(list(attrs)); d['text'].append([])
+                    return len(d['parent'])
+                root = add(0, 'div')
+                form = add(root, 'form')
+                p = form
+                for _ in range(w):
+                    p = add(p, 'div')
+                p = add(p, 'iframe')
+                for c in chain:
+                    p = add(p, c)
+                add(p, ln, la)
+                # after the wrappers: the outer form's own controls
+                add(form, 'input', [A('type', 'radio'), A('name', 'g')])
+                add(form, 'input', [A('type', 'submit')])
+                add(form, 'button', [A('type', 'submit')])
+                docs.append(d)
+    return docs
+
+
 def trace_part(router, tier):
     rng = random.Random(common.SEED * 7919 + 17)
     ndocs, nmax = (70, 22) if tier == 'quick' else (900, 34)
     jobs = [('t%d' % k, rand_form_doc(rng, nmax)) for k in range(ndocs)]
+    td = tail_docs()
+    jobs += [('tail%d' % k, d) for k, d in enumerate(td if tier == 'thorough' else td[::2])]
     procs = 8
     ctx = mp.get_context('fork')
     chunks = [jobs[i::procs] for i in range(procs)]
